@@ -491,6 +491,14 @@ def precondition_witnesses(contract, config, n=150, seed=1):
 
 def _replay_refuted(eng, contract, config, ob, label, replay_dir, prop):
     out = {}
+    if getattr(contract, "no_native_replay", False):
+        out["confirmed"] = False
+        out["replay_error"] = "this contract is over abstract tokens (plumbing proof): the solver's refutation has no concrete input to replay"
+        try:
+            out["solver_model"] = str(ob.model)[:800]
+        except Exception:
+            pass
+        return out
     try:
         model = small_model(ob, eng.entry_args)
         out["solver_model"] = str(model)[:1500]
